@@ -124,6 +124,23 @@ let rec nth n0 l default =
             | [] -> default
             | _ :: t -> nth m t default)
 
+(** val last : 'a1 list -> 'a1 -> 'a1 **)
+
+let rec last l d =
+  match l with
+  | [] -> d
+  | a :: l0 -> (match l0 with
+                | [] -> a
+                | _ :: _ -> last l0 d)
+
+(** val removelast : 'a1 list -> 'a1 list **)
+
+let rec removelast = function
+| [] -> []
+| a :: l0 -> (match l0 with
+              | [] -> []
+              | _ :: _ -> a :: (removelast l0))
+
 (** val rev : 'a1 list -> 'a1 list **)
 
 let rec rev = function
@@ -167,11 +184,23 @@ let rec fold_right f a0 = function
 | [] -> a0
 | b0 :: t -> f b0 (fold_right f a0 t)
 
+(** val existsb : ('a1 -> bool) -> 'a1 list -> bool **)
+
+let rec existsb f = function
+| [] -> false
+| a :: l0 -> (||) (f a) (existsb f l0)
+
 (** val forallb : ('a1 -> bool) -> 'a1 list -> bool **)
 
 let rec forallb f = function
 | [] -> true
 | a :: l0 -> (&&) (f a) (forallb f l0)
+
+(** val filter : ('a1 -> bool) -> 'a1 list -> 'a1 list **)
+
+let rec filter f = function
+| [] -> []
+| x :: l0 -> if f x then x :: (filter f l0) else filter f l0
 
 (** val firstn : nat -> 'a1 list -> 'a1 list **)
 
@@ -1645,10 +1674,10 @@ type bangz = { closed : slot list; curslot : slot }
 
 (** val bang_tree : slot list -> slot -> area **)
 
-let rec bang_tree cl last =
+let rec bang_tree cl last0 =
   match cl with
-  | [] -> slotA last
-  | s :: r -> Val ((Npos XH), (slotA s), (bang_tree r last))
+  | [] -> slotA last0
+  | s :: r -> Val ((Npos XH), (slotA s), (bang_tree r last0))
 
 (** val bangA : bangz -> area **)
 
@@ -1662,10 +1691,10 @@ let bang0 =
 
 (** val qu_tree : area list -> area -> area **)
 
-let rec qu_tree qs last =
+let rec qu_tree qs last0 =
   match qs with
-  | [] -> last
-  | a :: r -> Val (N0, a, (qu_tree r last))
+  | [] -> last0
+  | a :: r -> Val (N0, a, (qu_tree r last0))
 
 type ucode = { ty : n; hc : n; dc : n; loc : (n * n); ar : area; raw : n list }
 
@@ -1845,3 +1874,315 @@ let rec area_display = function
              (app ((area_char t) :: [])
                (app (cH_LB :: []) (app (area_display r) (cH_RB :: []))))))
   else (area_char t) :: []
+
+(** val later_end : n -> n list -> bool **)
+
+let later_end k rest =
+  existsb (fun c ->
+    match end_class c with
+    | Some j -> N.eqb j k
+    | None -> false) rest
+
+(** val starts : n -> n list -> bool **)
+
+let starts c rest =
+  match index_of c sINGLE with
+  | Some _ -> true
+  | None ->
+    (match index_of c sTART with
+     | Some k -> later_end k rest
+     | None -> false)
+
+(** val is_heart : n -> bool **)
+
+let is_heart c =
+  match index_of c hEARTS with
+  | Some _ -> true
+  | None -> false
+
+(** val is_areach : n -> bool **)
+
+let is_areach c =
+  (||) ((||) (N.eqb c cH_Q) (N.eqb c cH_BANG)) (is_heart c)
+
+(** val split_on : n -> n list -> n list -> n list list **)
+
+let rec split_on sep l cur =
+  match l with
+  | [] -> (rev cur) :: []
+  | c :: r ->
+    if N.eqb c sep
+    then (rev cur) :: (split_on sep r [])
+    else split_on sep r (c :: cur)
+
+(** val slot_of : n list -> slot **)
+
+let rec slot_of = function
+| [] -> None
+| c :: r ->
+  (match index_of c hEARTS with
+   | Some k -> Some (N.add k (Npos (XO XH)))
+   | None -> slot_of r)
+
+(** val bang_of : n list -> area **)
+
+let bang_of seg =
+  let slots = map slot_of (split_on cH_BANG seg []) in
+  bang_tree (removelast slots) (last slots None)
+
+(** val area_of : n list -> area **)
+
+let area_of toks =
+  let bangs = map bang_of (split_on cH_Q toks []) in
+  qu_tree (removelast bangs) (last bangs Nil)
+
+type head =
+| HSingle of n
+| HMulti of n * n list * n
+
+type ccmd = { chead : head; cdotitems : n list; careaitems : n list }
+
+type cst = { cprefix : n list; ccmds : ccmd list }
+
+(** val flat_head : head -> n list **)
+
+let flat_head = function
+| HSingle c -> c :: []
+| HMulti (s, inner, e) -> s :: (app inner (e :: []))
+
+(** val flat_cmd : ccmd -> n list **)
+
+let flat_cmd c =
+  app (flat_head c.chead) (app c.cdotitems c.careaitems)
+
+(** val flat_cmds : ccmd list -> n list **)
+
+let flat_cmds cs =
+  flat_map flat_cmd cs
+
+(** val flatten : cst -> n list **)
+
+let flatten t =
+  app t.cprefix (flat_cmds t.ccmds)
+
+(** val all_ctx : (n -> n list -> bool) -> n list -> n list -> bool **)
+
+let rec all_ctx p items after =
+  match items with
+  | [] -> true
+  | x :: r -> (&&) (p x (app r after)) (all_ctx p r after)
+
+(** val valid_head : head -> bool **)
+
+let valid_head = function
+| HSingle c -> (match index_of c sINGLE with
+                | Some _ -> true
+                | None -> false)
+| HMulti (s, inner, e) ->
+  (match index_of s sTART with
+   | Some k ->
+     (match end_class e with
+      | Some k' ->
+        (&&) (N.eqb k k')
+          (forallb (fun x ->
+            match end_class x with
+            | Some j -> negb (N.eqb j k)
+            | None -> true) inner)
+      | None -> false)
+   | None -> false)
+
+(** val valid_cmd : ccmd -> n list -> bool **)
+
+let valid_cmd c after =
+  (&&)
+    ((&&)
+      ((&&) (valid_head c.chead)
+        (all_ctx (fun x a -> (&&) (negb (starts x a)) (negb (is_areach x)))
+          c.cdotitems (app c.careaitems after)))
+      (match c.careaitems with
+       | [] -> true
+       | x :: _ -> is_areach x))
+    (all_ctx (fun x a -> negb (starts x a)) c.careaitems after)
+
+(** val valid_cmds : ccmd list -> bool **)
+
+let rec valid_cmds = function
+| [] -> true
+| c :: r -> (&&) (valid_cmd c (flat_cmds r)) (valid_cmds r)
+
+(** val valid : cst -> bool **)
+
+let valid t =
+  (&&) (all_ctx (fun x a -> negb (starts x a)) t.cprefix (flat_cmds t.ccmds))
+    (valid_cmds t.ccmds)
+
+(** val head_kind : head -> n **)
+
+let head_kind = function
+| HSingle c -> (match index_of c sINGLE with
+                | Some k -> k
+                | None -> N0)
+| HMulti (_, _, e) -> (match end_kind e with
+                       | Some k -> k
+                       | None -> N0)
+
+(** val head_syl : head -> n **)
+
+let head_syl = function
+| HSingle _ -> Npos XH
+| HMulti (_, inner, _) ->
+  N.add (Npos (XO XH)) (N.of_nat (length (filter is_hangul inner)))
+
+(** val head_raw : head -> n list **)
+
+let head_raw = function
+| HSingle c -> c :: []
+| HMulti (s, inner, e) -> s :: (app (filter is_hangul inner) (e :: []))
+
+(** val dots_of : n list -> n **)
+
+let dots_of items =
+  fold_right (fun c acc -> N.add (if is_dot c then dot_val c else N0) acc) N0
+    items
+
+(** val advance : n list -> (n * n) -> n * n **)
+
+let rec advance l lc =
+  match l with
+  | [] -> lc
+  | c :: r ->
+    advance r
+      (if N.eqb c cH_NL
+       then ((N.add (fst lc) (Npos XH)), N0)
+       else ((fst lc), (N.add (snd lc) (Npos XH))))
+
+(** val abstract_cmd : ccmd -> (n * n) -> ucode **)
+
+let abstract_cmd c lc =
+  { ty = (head_kind c.chead); hc = (head_syl c.chead); dc =
+    (dots_of c.cdotitems); loc = lc; ar =
+    (area_of (filter is_areach c.careaitems)); raw =
+    (app (head_raw c.chead)
+      (app (filter is_dot c.cdotitems) (filter is_areach c.careaitems))) }
+
+(** val abstract_cmds : ccmd list -> (n * n) -> ucode list **)
+
+let rec abstract_cmds cs lc =
+  match cs with
+  | [] -> []
+  | c :: r ->
+    (abstract_cmd c lc) :: (abstract_cmds r (advance (flat_cmd c) lc))
+
+(** val abstract : cst -> ucode list **)
+
+let abstract t =
+  abstract_cmds t.ccmds (advance t.cprefix ((Npos XH), N0))
+
+type dmode =
+| DPrefix
+| DInner of n
+| DDots
+| DArea
+
+type dst = { dpre : n list; ddone : ccmd list; dmode_ : dmode; dstart : 
+             n; dinner : n list; dhead : head; ddots : n list; darea : 
+             n list }
+
+(** val dst0 : dst **)
+
+let dst0 =
+  { dpre = []; ddone = []; dmode_ = DPrefix; dstart = N0; dinner = [];
+    dhead = (HSingle N0); ddots = []; darea = [] }
+
+(** val dclose : dst -> ccmd list **)
+
+let dclose s =
+  match s.dmode_ with
+  | DPrefix -> s.ddone
+  | DInner _ -> s.ddone
+  | _ ->
+    { chead = s.dhead; cdotitems = (rev s.ddots); careaitems =
+      (rev s.darea) } :: s.ddone
+
+(** val dstep : dst -> n -> n list -> dst **)
+
+let dstep s c rest =
+  match s.dmode_ with
+  | DPrefix ->
+    if starts c rest
+    then (match index_of c sINGLE with
+          | Some _ ->
+            { dpre = s.dpre; ddone = (dclose s); dmode_ = DDots; dstart = N0;
+              dinner = []; dhead = (HSingle c); ddots = []; darea = [] }
+          | None ->
+            (match index_of c sTART with
+             | Some k ->
+               { dpre = s.dpre; ddone = (dclose s); dmode_ = (DInner k);
+                 dstart = c; dinner = []; dhead = (HSingle N0); ddots = [];
+                 darea = [] }
+             | None -> s))
+    else { dpre = (c :: s.dpre); ddone = s.ddone; dmode_ = DPrefix; dstart =
+           N0; dinner = []; dhead = s.dhead; ddots = []; darea = [] }
+  | DInner k ->
+    (match end_class c with
+     | Some j ->
+       if N.eqb j k
+       then { dpre = s.dpre; ddone = s.ddone; dmode_ = DDots; dstart = N0;
+              dinner = []; dhead = (HMulti (s.dstart, (rev s.dinner), c));
+              ddots = []; darea = [] }
+       else { dpre = s.dpre; ddone = s.ddone; dmode_ = (DInner k); dstart =
+              s.dstart; dinner = (c :: s.dinner); dhead = s.dhead; ddots =
+              []; darea = [] }
+     | None ->
+       { dpre = s.dpre; ddone = s.ddone; dmode_ = (DInner k); dstart =
+         s.dstart; dinner = (c :: s.dinner); dhead = s.dhead; ddots = [];
+         darea = [] })
+  | DDots ->
+    if starts c rest
+    then (match index_of c sINGLE with
+          | Some _ ->
+            { dpre = s.dpre; ddone = (dclose s); dmode_ = DDots; dstart = N0;
+              dinner = []; dhead = (HSingle c); ddots = []; darea = [] }
+          | None ->
+            (match index_of c sTART with
+             | Some k ->
+               { dpre = s.dpre; ddone = (dclose s); dmode_ = (DInner k);
+                 dstart = c; dinner = []; dhead = (HSingle N0); ddots = [];
+                 darea = [] }
+             | None -> s))
+    else if is_areach c
+         then { dpre = s.dpre; ddone = s.ddone; dmode_ = DArea; dstart = N0;
+                dinner = []; dhead = s.dhead; ddots = s.ddots; darea =
+                (c :: []) }
+         else { dpre = s.dpre; ddone = s.ddone; dmode_ = DDots; dstart = N0;
+                dinner = []; dhead = s.dhead; ddots = (c :: s.ddots); darea =
+                [] }
+  | DArea ->
+    if starts c rest
+    then (match index_of c sINGLE with
+          | Some _ ->
+            { dpre = s.dpre; ddone = (dclose s); dmode_ = DDots; dstart = N0;
+              dinner = []; dhead = (HSingle c); ddots = []; darea = [] }
+          | None ->
+            (match index_of c sTART with
+             | Some k ->
+               { dpre = s.dpre; ddone = (dclose s); dmode_ = (DInner k);
+                 dstart = c; dinner = []; dhead = (HSingle N0); ddots = [];
+                 darea = [] }
+             | None -> s))
+    else { dpre = s.dpre; ddone = s.ddone; dmode_ = DArea; dstart = N0;
+           dinner = []; dhead = s.dhead; ddots = s.ddots; darea =
+           (c :: s.darea) }
+
+(** val dscan : n list -> dst -> dst **)
+
+let rec dscan l s =
+  match l with
+  | [] -> s
+  | c :: r -> dscan r (dstep s c r)
+
+(** val decompose : n list -> cst **)
+
+let decompose text =
+  let s = dscan text dst0 in
+  { cprefix = (rev s.dpre); ccmds = (rev (dclose s)) }
